@@ -78,7 +78,9 @@ Wills ==
     { EvC([P0 EXCEPT !.t = "WILLTOPIC", !.topic = WT, !.qos = 1, !.retain = TRUE]),
       EvC([P0 EXCEPT !.t = "WILLTOPIC", !.empty = TRUE]),
       EvC([P0 EXCEPT !.t = "WILLTOPIC", !.topic = WT, !.qos = 3]),
-      EvC([P0 EXCEPT !.t = "WILLMSG", !.data = WM]) }
+      EvC([P0 EXCEPT !.t = "WILLMSG", !.data = WM]),
+      \* an empty will message is legal: the will (topic, QoS, retain) stays
+      EvC([P0 EXCEPT !.t = "WILLMSG", !.data = "s:"]) }
 Sleeps == { EvC([P0 EXCEPT !.t = "DISCONNECT", !.dur = 3, !.hasdur = TRUE]),
             EvC([P0 EXCEPT !.t = "DISCONNECT", !.dur = 1, !.hasdur = TRUE]),
             EvC([P0 EXCEPT !.t = "PINGREQ", !.cid = "c1"]) }
